@@ -12,7 +12,10 @@ NAMES = ["a.txt", "b", "d/c.txt", "d/e/f", "sp ace", "m.txt", "n/new.txt", "z.tx
          "r\\w.txt", "d\\c.txt"]
 CONTENTS = [b"one\n", b"two two\n", b"", b"3" * 5000, b"\x00\xff", b"six" * 100000,
             # sizes that are exact multiples of the hub's 256 KiB staging chunk, ending in (or consisting of) zeros: sparse-file / hole tricks
-            bytes(range(256)) * 1024 + b"\x00" * 262144, b"\x00" * 524288, b"\x00" * 262144 + b"tail"]
+            bytes(range(256)) * 1024 + b"\x00" * 262144, b"\x00" * 524288, b"\x00" * 262144 + b"tail",
+            # … and zero-filled stretches whose LAST bytes are data, at lengths that are not a multiple of 8 (a zero-block test that
+            # looks at whole 8-byte words only — seed C13-O — takes them for holes)
+            b"\x00" * 6000 + b"END", b"\x00" * (262144 + 9001) + b"trail", b"\x00" * 4099 + b"\x07"]
 
 
 def gen_tree(rng, n, pool=NAMES):
